@@ -162,14 +162,19 @@ def runVec {σ ο : Type} (m : Machine σ (Item Int) ο) (enc : ο → Json) (el
     | none => m
   runVecG m intList? enc el ops
 
-/-- `Vectorize([Sum(), Count(), …])`: a list of different components ("sum" / "count") -/
+/-- `Vectorize([Sum(), Count(), StoreFilled(False), …])`: a list of different components ("sum" / "count" / "store":
+the last yields one value per fill, so the components yield different numbers of values) -/
 def runVecHet (el : Json) (ops : List Json) : Json :=
   match (arr? (getD el "comps")).bind (fun a => a.toList.mapM (fun c => str? (getD c "k"))), construct? (getD el "construct") with
   | some kinds, some c =>
     let cfg : CountCfg := ⟨"count", 0⟩
-    let m := orM (sumM 0) (countM Int cfg)
-    let inits := kinds.map (fun k => if k == "sum" then Sum.inl (sumM 0).init else Sum.inr (countM Int cfg).init)
-    let enc : (Item Int ⊕ Item Int) → Json := fun o => match o with | .inl x => itemJ ofInt x | .inr x => itemJ ofInt x
+    let m := orM (sumM 0) (orM (countM Int cfg) storeItemsM)
+    let inits := kinds.map (fun k =>
+      if k == "sum" then Sum.inl (sumM 0).init
+      else if k == "count" then Sum.inr (Sum.inl (countM Int cfg).init)
+      else Sum.inr (Sum.inr storeItemsM.init))
+    let enc : (Item Int ⊕ (Item Int ⊕ Item Int)) → Json := fun o =>
+      match o with | .inl x => itemJ ofInt x | .inr (.inl x) => itemJ ofInt x | .inr (.inr x) => itemJ ofInt x
     runM ((vectorizeLM m inits).mapOut (fun it => ⟨Vec.build c it.data, it.ctx⟩)) (item? intList?) (itemJ (builtJ enc)) ops
   | _, _ => err "bad vechet args"
 
@@ -221,6 +226,23 @@ def runCountRun (cfg : CountCfg) (ops : List Json) : Json :=
   match ops.foldl step (some (m.init, [])) with
   | none => err "bad countrun ops"
   | some (_, out) => Json.mkObj [("obs", Json.arr out.toArray)]
+
+/-- a context with nested dictionaries: `{key: int | null | {…}}` -/
+partial def nvalJ : NVal → Json
+  | .leaf l => leafJ l
+  | .dict items => Json.mkObj (items.map (fun kv => (kv.1, nvalJ kv.2)))
+
+def nctxJ (c : NCtx) : Json := Json.mkObj (c.map (fun kv => (kv.1, nvalJ kv.2)))
+
+partial def nval? (j : Json) : Option NVal :=
+  match j with
+  | .obj kvs => (kvs.toList.mapM (fun kv => (nval? kv.2).map (fun x => (kv.1, x)))).map NVal.dict
+  | _ => (optInt j).map NVal.leaf
+
+def nctx? (j : Json) : Option NCtx :=
+  match nval? j with
+  | some (.dict items) => some items
+  | _ => none
 
 /-- the specification vocabulary of the theorems (`Model/C09Spec.lean`), executed on the harness's inputs -/
 def handleSpec (j : Json) : Json :=
@@ -295,6 +317,20 @@ def handleSpec (j : Json) : Json :=
         | .error e => Json.mkObj [("e", errName (ofLenaErr e))]
         | .ok e => Json.mkObj [("bins", narrJ e.hist.bins), ("n_out", ofInt e.hist.nOut), ("c", ctxJ e.curContext)]
     | _, _, _, _ => err "bad histel spec"
+  | some "nset" =>
+    -- {"c": nested context, "name": s, "v": i}: `c.update({name: v})`, `update_recursively(c, name, v)`, and the
+    -- flat `Ctx.set` (what the model of Count does) on the top level of `c` with opaque values
+    match nctx? (getD j "c"), str? (getD j "name"), int? (getD j "v") with
+    | some c, some name, some v =>
+      Json.mkObj [("set", nctxJ (c.set name (.leaf (some v)))),
+        ("path", match c.updateRecursivelyStr name (some v) with
+          | .ok d => nctxJ d
+          | .error e => Json.mkObj [("e", errName e)]),
+        ("parts", Json.arr ((name.splitOn ".").map Json.str).toArray),
+        ("flat", match ctx? (getD j "flat") with
+          | some (some f) => nctxJ (f.set name (some v)).toN
+          | _ => Json.null)]
+    | _, _, _ => err "bad nset spec"
   | _ => err "unknown spec"
 
 def handle (j : Json) : Json :=
